@@ -184,7 +184,9 @@ def kernels(rep, tier, group):
         rep.case(hashlib.sha256(("ck " + line).encode()).hexdigest(), True)
         if n != s:
             spec_fail.append((kern, line, c, s, n))
-        if c != "none":
+        translated = all(st.get(k, "x") is None for k in kern.split("+"))
+        if translated:
+            # a translated kernel must answer (None = out of fuel / an error of the C semantics) and agree
             cmp_tr += 1
             if c != n:
                 tie_fail.append((kern, line, c, s, n))
